@@ -35,7 +35,7 @@ from harness import core
 from harness.core import LeanDriver
 
 MANIFEST_ENTRY = {
-    "text": "Lean theorems over an explicit model of the pending lists, the activation cursor and mutable emission objects: activateSrc_spec/runSrc_spec (one call of Source.activate_emissions hands out exactly the longest started prefix in pop order; N days hand out takeWhile(start <= last day), nothing skipped or duplicated, no sortedness needed), activate_complete (sorted scenario => every emission starting within the period, each once), activation_day (sorted => handed out exactly on day max(start,0)), C01_objects / C01_objects_any_two (store entries carry identity = id,start,rate,repairability,natural end and a mutable life-cycle field; programs have ARBITRARY, universally quantified behaviours that mutate every emission they hold every day; `copied` = run on deepcopy of the infrastructure object, `shared` = in place: under `copied`, for every program list, every partition over workers and every order, each program faces exactly the pristine emission objects of the scenario that start within the period - not definitional: proved through runProgramO_proj / facedBy_fst), C01_needs_copy (the in-place interpreter violates it: lists consumed, and a mutation witness where the second program faces the right identities already repaired by the first), table obligations wiring_ok, copy_hooks_ok (no __deepcopy__/__copy__/__reduce_ex__/__getstate__ in virtual_world/* and emission_types/*, no field dropped or misplaced by a __reduce__/reconstructor pair, _create_emission and its helpers touch no life-cycle attribute), reduce_keeps_every_init_field (recomputed in Lean from the raw tables), identity_fields_pickled, C01_current_code(_objects). Tied to the code by the extractor, by day-by-day correspondence with the real Source.activate_emissions, by real copy.deepcopy / pickle / in-place runs of real Component objects against the object-level interpreter, and by whole simulations (debug and pools, permuted program order, 1/2/6 simulation numbers) whose pickled scenarios are read back and compared, whole identity incl. Theoretical End Date, with every program's records.",
+    "text": "Lean theorems over an explicit model of the pending lists, the activation cursor and mutable emission objects: activateSrc_spec/runSrc_spec (one call of Source.activate_emissions hands out exactly the longest started prefix in pop order; N days hand out takeWhile(start <= last day), nothing skipped or duplicated, no sortedness needed), activate_complete (sorted scenario => every emission starting within the period, each once), activation_day (sorted => handed out exactly on day max(start,0)), C01_objects / C01_objects_any_two (store entries carry identity = id,start,rate,repairability,natural end and a mutable life-cycle field; programs have ARBITRARY, universally quantified behaviours that mutate every emission they hold every day; `copied` = run on deepcopy of the infrastructure object, `shared` = in place: under `copied`, for every program list, every partition over workers and every order, each program faces exactly the pristine emission objects of the scenario that start within the period - not definitional: proved through runProgramO_proj / facedBy_fst), C01_needs_copy (the in-place interpreter violates it: lists consumed, and a mutation witness where the second program faces the right identities already repaired by the first), table obligations wiring_ok, copy_hooks_ok (no __deepcopy__/__copy__/__reduce_ex__/__getstate__ in virtual_world/* and emission_types/*, no field dropped or misplaced by a __reduce__/reconstructor pair, _create_emission and its helpers touch no life-cycle attribute), reduce_keeps_every_init_field (recomputed in Lean from the raw tables), identity_fields_pickled, C01_current_code(_objects). Tied to the code by the extractor, by day-by-day correspondence with the real Source.activate_emissions, by real copy.deepcopy / pickle / in-place runs of real Component objects against the object-level interpreter, and by whole simulations (debug and pools, permuted program order, 1/2/6 simulation numbers) whose pickled scenarios are read back and compared, whole identity incl. Theoretical End Date, with every program's records. Layer 3 (every run): the methods of the four emission classes are translated from the current source to Lean (harness/extract/py2lean.py, emission_src.py -> Generated/EmissionSrc.lean) and Props/EmissionTie.lean + EmissionOnSource.lean are re-checked: each translated method equals the model's function through the abstraction, iterating them is Emission.run (run_tie), and the C02/C03/C04 statements hold of the translated code; a method outside the translated subset is a note, a failing tie theorem a broken obligation.",
     "design_ref": "DESIGN.md 5.1",
     "note": "trusted: Lean kernel + standard axioms; the syntactic wiring extractor (ast patterns, fails loudly when a pattern is missing); in the functional model `deepcopy` is provably the identity on values (deepcopy_eq) - that the real copy.deepcopy / pickle of the real classes is faithful and isolating is exercised by the object stage and the whole runs, and the __reduce__ tables are obligations, but it is not proved; OS process scheduling is exercised, not proved; sortedness of generated lists is C16's generate_sorted and is also measured here on every pickled scenario",
     "technique": "Lean 4 proofs over a pending-list/cursor/object model + tables extracted from the source + differential correspondence on real objects + whole-run oracle",
@@ -270,6 +270,154 @@ def object_stage(ctx):
             ctx.count("object_cases_shared_second_program_faces_mutated_objects")
         ctx.nontrivial.add(("obj", mode, k, n, repr(groups)))
     ctx.sample({"object_case": cases[0]})
+
+
+# ---------------------------------------------------------------------------------------------
+# program stage: programs that DO something (tag, repair) on copies of one real Component; what every
+# program reports about every emission — the attributes the property names — must be the scenario's
+# ---------------------------------------------------------------------------------------------
+def program_case(n, groups, programs, mode):
+    """groups: per source [(start, nrd, repairable, rate1024, repair_delay)] sorted by start, ids restart at 0 per
+    source; programs: list of event lists [(day, company, reporting_delay)] (tag requests reaching the component on
+    that day, issued through the real Component.tag_emissions; [] = the baseline).  Every program runs the real
+    day loop (activate -> tag requests -> update) for n days on its own `copy.deepcopy` / pickle copy of ONE real
+    Component holding one real Source per group.  Returns per program {(source, id): record}, record = what the
+    emission's own `get_summary_dict` reports: (start day, rate1024, repairable, theoretical end day | None, status)."""
+    from harness.adapters import emission as E
+    from file_processing.output_processing.output_utils import EmisInfo, TsEmisData
+    from scheduling.schedule_dataclasses import TaggingInfo
+    from constants.output_file_constants import EMIS_DATA_COL_ACCESSORS as eca
+    from virtual_world.component import Component
+    from virtual_world.sources import Source
+
+    srcs = []
+    for gi, specs in enumerate(groups):
+        ems = []
+        for i, (st, nrd, rep, r, dl) in enumerate(specs):
+            e = E.make_emission(st, nrd, dl, rep, False, 1, 0, rate=r / 1024.0)
+            e._emissions_id = str(i)
+            e._verif_src = gi
+            ems.append(e)
+        pend = sorted(ems, key=lambda e: e._start_date, reverse=True)
+        srcs.append(Source._reconstruct(f"S{gi}", True, True, 1, 0, True, {0: pend}, None, None, None, None, None,
+                                        None, None, "repairable"))
+    comp = Component._reconstruct("comp", "comp_1", srcs, [], [], {})
+    end = E.summary_end_date(n)
+    out = []
+    for evs in programs:
+        target = copy.deepcopy(comp) if mode == "deepcopy" else pickle.loads(pickle.dumps(comp))
+        for d in range(n):
+            cur = E.SIM_START + timedelta(days=d)
+            target.activate_emissions(cur, 0)
+            for (ed, c, trd) in evs:
+                if ed == d and target._active_emissions:
+                    target.tag_emissions(TaggingInfo(2.0, cur, 5, f"c{c}", "1", trd))
+            target.update_emissions_state(EmisInfo(), TsEmisData())
+        recs = {}
+        for e in list(target._active_emissions) + list(target._inactive_emissions):
+            sd = e.get_summary_dict(end)
+            recs[(e._verif_src, int(sd[eca.EMIS_ID]))] = (
+                E.d2i(sd[eca.DATE_BEG]), int(round(sd[eca.T_RATE] * 1024)), bool(sd[eca.REPAIRABLE]),
+                E.d2i(sd[eca.THEORY_DATE]), sd[eca.STATUS])
+        out.append(recs)
+    return out
+
+
+def program_oracle(n, groups, programs, records):
+    """every program reports, for exactly the scenario emissions that start within the period: the scenario's start
+    date, rate and repairability; natural end date = start + natural repair delay for a repairable emission; and for
+    a non-repairable one (no program can touch it) the same natural end date as the first program (the baseline)"""
+    out = []
+    want = {(gi, i): sp for gi, specs in enumerate(groups) for i, sp in enumerate(specs) if sp[0] <= n - 1}
+    for p, recs in enumerate(records):
+        if set(recs) != set(want):
+            out.append(("C01:program-vs-scenario", f"program {p} reports emissions {sorted(recs)} but the scenario holds "
+                                                   f"{sorted(want)} within the period"))
+            continue
+        for key, (st, nrd, rep, r, dl) in sorted(want.items()):
+            got = recs[key]
+            if got[:3] != (st, r, rep):
+                out.append(("C01:identity-vs-scenario", f"program {p}, emission {key}: (start, rate, repairable) = {got[:3]} "
+                                                        f"but the scenario says {(st, r, rep)}"))
+            elif rep and got[3] != st + nrd:
+                out.append(("C01:natural-end-vs-scenario", f"program {p}, repairable emission {key}: natural end date "
+                                                           f"{got[3]} but start + natural repair delay = {st + nrd}"))
+            elif got[3] != records[0][key][3]:
+                out.append(("C01:natural-end-differs-between-programs",
+                            f"emission {key}: natural end date {got[3]} in program {p} but {records[0][key][3]} in the "
+                            f"baseline (status {got[4]} vs {records[0][key][4]})"))
+    return out
+
+
+def _program_world(rng):
+    n = rng.randint(1, 8)
+    groups = []
+    for _ in range(rng.choice([1, 2, 2, 3])):
+        rep_src = rng.random() < 0.6            # a source is repairable or not
+        specs = []
+        for _ in range(rng.randint(0, 4)):
+            nrd = rng.randint(1, 9)
+            roll = rng.random()
+            if roll < 0.2:
+                st = -nrd                        # began exactly `duration` days before the period (oldest possible)
+            elif roll < 0.45:
+                st = n - nrd + rng.choice([-1, 0, 0, 1])   # natural end on / next to the last simulated day
+            else:
+                st = rng.randint(-nrd, n)
+            specs.append((max(st, -nrd), nrd, rep_src, rng.choice([256, 512, 1024, 2048]), rng.choice([0, 0, 0, 1, 2])))
+        groups.append(sorted(specs, key=lambda x: x[0]))
+    programs = [[]]                              # program 0: the baseline
+    for _ in range(rng.randint(1, 3)):
+        evs = sorted((0 if rng.random() < 0.35 else rng.randrange(n), rng.randint(1, 3), rng.choice([0, 0, 0, 1, 2]))
+                     for _ in range(rng.choice([1, 1, 2, 3])))
+        programs.append(evs)
+    return n, groups, programs, rng.choice(["deepcopy", "pickle"])
+
+
+def program_stage(ctx):
+    lines, cases, pos = [], [], []
+    for _ in range(ctx.pick(1200, 25000)):
+        n, groups, programs, mode = _program_world(ctx.rng)
+        cases.append((n, groups, programs, mode))
+        lines += ["reset"] + ["src [" + ",".join("[%d,%d,%d,%d,%d]" % (i, st, r, int(rep), nrd)
+                                                 for i, (st, nrd, rep, r, dl) in enumerate(specs)) + "]" for specs in groups]
+        lines.append("expectedfull %d" % n)
+        pos.append(len(lines) - 1)
+    out = LeanDriver("drv_heap").run(lines)
+    for (n, groups, programs, mode), at in zip(cases, pos):
+        records = program_case(n, groups, programs, mode)
+        ctx.evaluations += 1
+        ctx.traces += 1
+        inp = {"program_case": {"n": n, "groups": [[list(x) for x in g] for g in groups],
+                                "programs": [[list(e) for e in p] for p in programs], "mode": mode}}
+        # the model's expectation (Lean `expected` + `EmId.theoEnd`) vs what every program reports for repairables
+        model = []
+        for part in out[at].split(";"):
+            grp = []
+            for item in [x for x in part.strip("[]").split(",") if x]:
+                i, st, r, rep, nrd, te = item.split(":")
+                grp.append((int(i), int(st), int(r), rep == "1", None if te == "-" else int(te)))
+            model.append(sorted(grp))
+        for p, recs in enumerate(records):
+            impl = [sorted((i, v[0], v[1], v[2], v[3] if v[2] else None) for (gi, i), v in recs.items() if gi == g)
+                    for g in range(len(groups))]
+            if impl != model:
+                ctx.disagree("heap/program-records", dict(inp, program=p), out[at], str(impl))
+                break
+        for sig, what in program_oracle(n, groups, programs, records):
+            ctx.violate(sig, what, inp)
+        ctx.count("program_cases")
+        flat = [sp for g in groups for sp in g]
+        if any(sp[0] == -sp[1] for sp in flat):
+            ctx.count("program_cases_with_emission_begun_exactly_duration_days_before")
+        if any(e[0] == 0 and e[2] == 0 for pr in programs for e in pr) and any(sp[4] == 0 for sp in flat):
+            ctx.count("program_cases_tag_on_day0_zero_delays")
+        if any(not sp[2] and sp[0] + sp[1] in (n - 1, n) for sp in flat) and sum(1 for sp in flat if sp[0] <= n - 1) > 1:
+            ctx.count("program_cases_nonrepairable_expiring_on_last_days_among_several")
+        if any(v[4] == "repaired" for recs in records[1:] for v in recs.values()):
+            ctx.count("program_cases_with_repairs")
+        ctx.nontrivial.add(("prog", mode, n, repr(groups), repr(programs)))
+    ctx.sample({"program_case": cases[0]})
 
 
 # ---------------------------------------------------------------------------------------------
@@ -748,6 +896,7 @@ def run(ctx):
     _tie.emission_tie(ctx)  # layer 3: calc_theory_date / update / activate of the emission classes, translated from the current source
     source_stage(ctx)
     object_stage(ctx)
+    program_stage(ctx)
     history_stage(ctx)
     reduce_roundtrip_stage(ctx)
     whole_stage(ctx)
@@ -800,6 +949,19 @@ def replay(ctx, data):
         for s, what in raised:
             print("oracle:", s, "-", what)
         still = any(s == sig for s, _ in raised) if sig else bool(raised)
+        print("replay:", "still fails" if still else "no longer fails")
+        return 1 if still else 0
+    if "program_case" in inp:
+        c = inp["program_case"]
+        groups = [[tuple(x) for x in g] for g in c["groups"]]
+        programs = [[tuple(e) for e in p] for p in c["programs"]]
+        records = program_case(c["n"], groups, programs, c["mode"])
+        raised = program_oracle(c["n"], groups, programs, records)
+        for p, recs in enumerate(records):
+            print("program", p, programs[p], "->", sorted(recs.items()))
+        for s_, what in raised:
+            print("oracle:", s_, "-", what)
+        still = any(s_ == sig for s_, _ in raised) if sig else bool(raised)
         print("replay:", "still fails" if still else "no longer fails")
         return 1 if still else 0
     if "history_case" in inp:
